@@ -344,7 +344,7 @@ def py_compare(eng, op: str, a: Val, b: Val) -> Term:
             e = py_eq(eng, a, b)
         elif isinstance(a, ObjV) and isinstance(b, ObjV):
             e = BoolVal(a.path == b.path)
-        elif isinstance(a, V) and isinstance(b, V) and a.ty == b.ty and isinstance(a.ty, (TBool, TInt)):
+        elif isinstance(a, V) and isinstance(b, V) and a.ty == b.ty and isinstance(a.ty, (TBool, TInt, TRef)):
             e = Eq(a.t, b.t)
         elif isinstance(a, V) and isinstance(b, V) and a.ty == b.ty and isinstance(a.ty, TOpt) \
                 and isinstance(a.ty.inner, TInt):
